@@ -1,3 +1,4 @@
+mod c06;
 mod c07;
 mod c13;
 mod c20;
@@ -38,6 +39,7 @@ fn main() {
     match property.as_str() {
         "C20" => c20::run(&mut ctx),
         "C07" => c07::run(&mut ctx),
+        "C06" => c06::run(&mut ctx),
         "C13" => c13::run(&mut ctx),
         other => { eprintln!("unknown property {other}"); std::process::exit(2); }
     }
